@@ -347,3 +347,50 @@ func VH_C19_document_fillrule_Q() {
 	vAssert("C19.docfillrule.rule", rec.calls[0].style.FillRule == want)
 	vAssert("C19.docfillrule.sibling_default", rec.calls[1].style.FillRule == NonZero)
 }
+
+// C19-H9: stroke-dasharray and stroke-dashoffset are lengths in SVG, a canvas states dashes as
+// multiples of the stroke width (every renderer multiplies them by it).  A rect with a symbolic
+// stroke-width (own or inherited, given before or after the dashes), a two-entry dash array and a
+// dash offset: what a renderer will draw - the style's dashes and offset times its stroke width -
+// are the lengths the document states.
+func VH_C19_document_dashes_Q() {
+	vhC19Stubs()
+	w := vNondetDyadic(6, 2)
+	d1, d2, off := vNondetDyadic(6, 2), vNondetDyadic(6, 2), vNondetDyadic(6, 2)
+	vAssume(0.25 <= w && w <= 6 && 0.25 <= d1 && d1 <= 8 && 0.25 <= d2 && d2 <= 8 && 0 <= off && off <= 8)
+	where := vChoose(0, 2) // stroke-width: on the group; on the rect before the dashes; on the rect after the dashes
+	doc := `<svg viewBox="` + vhC19Num(0) + " " + vhC19Num(0) + " " + vhC19Num(100) + " " + vhC19Num(50) + `" xmlns="http://www.w3.org/2000/svg">`
+	doc += `<g stroke="red"`
+	if where == 0 {
+		doc += ` stroke-width="` + vhC19Num(w) + `"`
+	}
+	doc += `><rect x="` + vhC19Num(1) + `" y="` + vhC19Num(2) + `" width="` + vhC19Num(30) + `" height="` + vhC19Num(20) + `"`
+	if where == 1 {
+		doc += ` stroke-width="` + vhC19Num(w) + `"`
+	}
+	doc += ` stroke-dasharray="` + vhC19Num(d1) + " " + vhC19Num(d2) + `" stroke-dashoffset="` + vhC19Num(off) + `"`
+	if where == 2 {
+		doc += ` stroke-width="` + vhC19Num(w) + `"`
+	}
+	doc += `/><rect x="` + vhC19Num(40) + `" y="` + vhC19Num(2) + `" width="` + vhC19Num(3) + `" height="` + vhC19Num(4) + `"/></g></svg>`
+	c, err := ParseSVG(bytes.NewReader([]byte(doc)))
+	vAssert("C19.docdash.parsed", err == nil && c != nil)
+	if err != nil || c == nil {
+		return
+	}
+	rec := &vhC15Rec{w: c.W, h: c.H}
+	c.RenderTo(rec)
+	vAssert("C19.docdash.two_paths", len(rec.calls) == 2)
+	if len(rec.calls) != 2 {
+		return
+	}
+	a, b := rec.calls[0], rec.calls[1]
+	vAssert("C19.docdash.width", vhC19Near(a.style.StrokeWidth, w))
+	ok := len(a.style.Dashes) == 2
+	if ok {
+		sw := a.style.StrokeWidth
+		ok = vhC19Near(a.style.Dashes[0]*sw, d1) && vhC19Near(a.style.Dashes[1]*sw, d2) && vhC19Near(a.style.DashOffset*sw, off)
+	}
+	vAssert("C19.docdash.drawn_dash_lengths_are_the_documents", ok)
+	vAssert("C19.docdash.sibling_is_solid", len(b.style.Dashes) == 0)
+}
